@@ -495,3 +495,6 @@ def known_match(case, failure, entry):
     if entry["key"] == "C19-hdiff-ignores-added-objects":
         return failure.get("changed") == "one dataset added"
     return False
+
+
+RULE += (" " + 'hdiff mutations include the smallest possible change (next representable value) of a small float element; hdfimport commands may name two or three input files of different formats (one dataset per input, in order).')
